@@ -438,7 +438,13 @@ def index(c):
             got = container_of(c, c.args[0])
             if got is not None:
                 vw = (cell_view_id(c.it, got[0], got[1]), Lin.const(0))
-        sub = lambda n_, o_: Seq(n_, None, None, (vw[0], vw[1] + o_) if vw is not None else None, src_window(cp, ln, o_) if vw is None else None)
+        def sub(n_, o_):
+            items = None
+            if isinstance(src, Seq) and is_listed(src.items):
+                a_, k_ = c.st.sys.const_value(o_), c.st.sys.const_value(n_)
+                if a_ is not None and k_ is not None and all((int(a_) + i) in src.items.f for i in range(int(k_))):
+                    items = Struct({i: src.items.f[int(a_) + i] for i in range(int(k_))}, tag="elems")
+            return Seq(n_, None, items, (vw[0], vw[1] + o_) if vw is not None else None, src_window(cp, ln, o_) if vw is None else None)
         if lo is not None and hi is not None:
             c.require_ge(hi - lo, "index:order", "%s: start <= end" % what)
             c.require_ge(ln - hi, "index:end", "%s: end <= len" % what)
